@@ -510,7 +510,7 @@ pub fn run(mut ctx: Ctx) -> ! {
             5_000,
             300_000,
         )
-        .min_nontrivial(0.05),
+        .min_nontrivial(0.02),
         || api_case(2),
         check_api::<Cond>,
     );
@@ -521,7 +521,7 @@ pub fn run(mut ctx: Ctx) -> ! {
             2_000,
             100_000,
         )
-        .min_nontrivial(0.05),
+        .min_nontrivial(0.02),
         || api_case(0),
         check_api::<()>,
     );
